@@ -210,7 +210,7 @@ func SM2Sign(d *big.Int, e []byte, stream []byte) SignResult {
 			res.Rejected = append(res.Rejected, "k-range")
 			continue
 		}
-		x1 := BaseMul(k).X
+		x1 := BaseMulFast(k).X
 		r := new(big.Int).Add(eI, x1)
 		r.Mod(r, SM2N)
 		if r.Sign() == 0 {
@@ -254,7 +254,7 @@ func SM2Verify(px, py, e, r, s []byte) bool {
 	if t.Sign() == 0 {
 		return false
 	}
-	pt := BaseMul(sI).Add(Pt{X: x, Y: y}.Mul(t))
+	pt := BaseMulFast(sI).Add(Pt{X: x, Y: y}.Mul(t))
 	if pt.Inf {
 		return false
 	}
@@ -288,7 +288,69 @@ func SM2KeyGen(stream []byte) KeyGenResult {
 			continue
 		}
 		res.D = d
-		res.Pub = BaseMul(d)
+		res.Pub = BaseMulFast(d)
 		return res
 	}
+}
+
+// ---------------------------------------------------------------------------
+// helpers shared by the monitors
+
+var sm2BaseTable []Pt
+
+func init() {
+	sm2BaseTable = make([]Pt, 256)
+	p := G()
+	for i := 0; i < 256; i++ {
+		sm2BaseTable[i] = p
+		p = p.Dbl()
+	}
+}
+
+// BaseMulFast is [k]G as a sum of precomputed 2^i·G (k < 2^256); it is
+// validated against the plain double-and-add BaseMul in the self-test.
+func BaseMulFast(k *big.Int) Pt {
+	if k.BitLen() > 256 || k.Sign() < 0 {
+		return BaseMul(k)
+	}
+	r := Inf()
+	for i := 0; i < k.BitLen(); i++ {
+		if k.Bit(i) == 1 {
+			r = r.Add(sm2BaseTable[i])
+		}
+	}
+	return r
+}
+
+// ModN reduces into [0,n).
+func ModN(x *big.Int) *big.Int { return new(big.Int).Mod(x, SM2N) }
+
+// InvN is the inverse mod n.
+func InvN(x *big.Int) *big.Int { return new(big.Int).ModInverse(ModN(x), SM2N) }
+
+// SqrtP returns a square root mod p (p ≡ 3 mod 4) or nil.
+func SqrtP(v *big.Int) *big.Int {
+	e := new(big.Int).Add(SM2P, big1)
+	e.Rsh(e, 2)
+	r := new(big.Int).Exp(v, e, SM2P)
+	c := new(big.Int).Mul(r, r)
+	c.Mod(c, SM2P)
+	if c.Cmp(new(big.Int).Mod(v, SM2P)) != 0 {
+		return nil
+	}
+	return r
+}
+
+// LiftX returns a curve point with the given x, or ok=false.
+func LiftX(x *big.Int) (Pt, bool) {
+	r := new(big.Int).Mul(x, x)
+	r.Mul(r, x)
+	r.Add(r, new(big.Int).Mul(SM2A, x))
+	r.Add(r, SM2B)
+	r.Mod(r, SM2P)
+	y := SqrtP(r)
+	if y == nil {
+		return Pt{}, false
+	}
+	return Pt{X: new(big.Int).Set(x), Y: y}, true
 }
